@@ -63,7 +63,14 @@ def run(facts, res):
         # the position searches: discriminant switches on the result of Iterator::position
         searches = {}
         for e, l in all_edge_lits(ma, facts):
-            if l.kind == "variant" and peel(l.term)[0] == "call" and callee_name(peel(l.term)) == "position":
+            pt_ = peel(l.term)
+            is_search = pt_[0] == "call" and callee_name(pt_) == "position"
+            if not is_search and pt_[0] == "call" and pt_[4] is not None:
+                # a private helper wrapping the search (`fn position_of(a, t) -> Option<usize> { a.iter().position(|e| e == t) }`)
+                hb_ = facts.body(pt_[1])
+                if hb_ is not None and hb_.in_repo() and not hb_.public and hb_.kind != "closure" and hb_.local_ty(0).startswith("std::option::Option<usize"):
+                    is_search = any(t_.callee is not None and t_.callee.name == "position" for _, t_ in hb_.calls())
+            if l.kind == "variant" and is_search:
                 searches.setdefault(l.edge[0], {})["Some" if l.variants == {"Some"} else "None" if l.variants == {"None"} else "?"] = (e, l)
         def header_of(sb):
             hdrs = [bi for bi, t in ma.calls() if t.callee is not None and t.callee.name == "next" and cfg.dominates(bi, sb) and cfg.reaches(sb, bi)]
